@@ -484,10 +484,10 @@ def check(ctx):
         ok = (pk[2] == ("iter", src) and len(conds) == 1
               and conds[0] == cmp_("not in", ("iter", src), ("a", SELF, "positions_excluded")))
         # the filtered list is: every kernel's position keys, extended by positions_included
+        from .common import collects_kernel_keys
         muts = [x for x in subterms(src) if x[0] == "mut" and x[2] == "extend"]
         ok = ok and any(x[3] == (("a", SELF, "positions_included"),) for x in muts) \
-            and any(x[3] and x[3][0][0] == "a" and x[3][0][2] == "position_keys"
-                    and x[3][0][1] == ("iter", ("a", SELF, "_kernels")) for x in muts)
+            and collects_kernel_keys(src, ("a", SELF, "_kernels"))
     ctx.ob("C08.R5", build, "tracked keys = kernel keys + positions_included, minus "
                             "positions_excluded", ok, detail=short(pk or ()),
            stmt="tracked keys " + pretty(pk or ())[:160])
